@@ -388,13 +388,13 @@ def _compress_tiles(
             # else have 1 chunk per "sample"
             _chunks = (1, *meta.tile.yx)
 
-        if data.chunksize != _chunks:
-            data = data.rechunk(_chunks)
+        # NOTE: .chunksize is only the largest chunk, irregular chunking
+        # can have the same .chunksize, rechunk is a no-op when already matching
+        data = data.rechunk(_chunks)
     else:
         assert meta.num_planes == 1
         src_ydim = 0
-        if data.chunksize != meta.chunks:
-            data = data.rechunk(meta.chunks)
+        data = data.rechunk(meta.chunks)
 
     encoder = _mk_tile_compressor(meta, sample_idx)
 
